@@ -18,7 +18,3 @@ Theorem C19_sinusoid_real : forall freq phase n,
 Proof. exact sinusoid_real. Qed.
 Print Assumptions C19_sinusoid_real.
 
-(* |2 pi - fl(2 pi)| <= 2.5e-16 (interval arithmetic; brings the kernel's primitive-integer specifications) *)
-Theorem C19_two_pi_fl_error : Rabs (2 * PI - qr two_pi_fl) <= 25 / 100000000000000000.
-Proof. exact two_pi_fl_error. Qed.
-Print Assumptions C19_two_pi_fl_error.
